@@ -128,9 +128,76 @@ static bref_t step_bref(uintptr_t p, mi_page_t* hint) {
   r.idx = (long)((p - (uintptr_t)page->page_start) / bs); r.rem = (long)((p - (uintptr_t)page->page_start) % bs);
   return r;
 }
+/* ---- abandonment words (AbandonTrace.tla): a segment's thread_id, the abandoned bits of the arenas, the abandoned counters of the
+   (main) sub-process.  Segments are numbered on first sight; threads by their virtual id + 1 (0 = nobody). */
+#define STEP_MAXASEG 512
+static uintptr_t step_asegs[STEP_MAXASEG]; static int step_nasegs = 0;
+static int step_asegid(uintptr_t sg) {
+  for (int i = 0; i < step_nasegs; i++) if (step_asegs[i] == sg) return i + 1;
+  if (step_nasegs >= STEP_MAXASEG) return 0;
+  step_asegs[step_nasegs] = sg; return ++step_nasegs;
+}
+#define STEP_MAXTID 32
+static uintptr_t step_tids[STEP_MAXTID];      /* allocator thread id of virtual thread i (learned when the thread itself stores it) */
+static int step_tidof(uintptr_t v) {
+  if (v == 0) return 0;
+  if (v == _mi_thread_id() && cur_t >= 0 && cur_t < STEP_MAXTID) { step_tids[cur_t] = v; return cur_t + 1; }
+  for (int i = 0; i < STEP_MAXTID; i++) if (step_tids[i] == v) return i + 1;
+  return 99;      /* a thread that has not stored its id itself yet */
+}
+static int astep_log(const char* fn, int kind, const volatile void* addr, uintptr_t oldv, uintptr_t newv, int ok) {
+  uintptr_t a = (uintptr_t)addr;
+  static const char* kn[] = {"?", "ld", "st", "xchg", "casw", "cass", "add", "sub", "and", "or"};
+  if (kind > VF_K_OR) return 0;
+  if (a == (uintptr_t)&mi_subproc_default.abandoned_count || a == (uintptr_t)&mi_subproc_default.abandoned_os_list_count) {
+    if (kind != VF_K_ADD && kind != VF_K_SUB) return 1;
+    vf_logf("{\"e\":\"astep\",\"t\":%d,\"f\":\"%s\",\"k\":\"%s\",\"w\":\"%s\",\"old\":%ld}", cur_t, fn, kn[kind],
+            a == (uintptr_t)&mi_subproc_default.abandoned_count ? "cnt" : "oscnt", (long)oldv); vf_log_line_end();
+    return 1;
+  }
+  size_t na = mi_arena_get_count();
+  for (size_t i = 0; i < na; i++) {
+    mi_arena_t* ar = mi_arena_from_index(i);
+    if (ar == NULL || ar->blocks_abandoned == NULL) continue;
+    if (a >= (uintptr_t)ar->blocks_inuse && a < (uintptr_t)(ar->blocks_inuse + ar->field_count)) {
+      if (kind != VF_K_AND) return 1;        /* arena blocks given back (their segment is gone: a later segment at the same address is a new one) */
+      size_t f = (a - (uintptr_t)ar->blocks_inuse) / sizeof(mi_bitmap_field_t);
+      uintptr_t hit = (~newv) & oldv;
+      vf_logf("{\"e\":\"astep\",\"t\":%d,\"f\":\"%s\",\"k\":\"and\",\"w\":\"free\",\"hit\":[", cur_t, fn);
+      int first = 1;
+      for (int b = 0; b < 64; b++) if (hit & ((uintptr_t)1 << b)) { vf_logf("%s%d", first ? "" : ",", step_asegid((uintptr_t)ar->start + (f * 64 + (size_t)b) * MI_ARENA_BLOCK_SIZE)); first = 0; }
+      vf_logf("],\"miss\":[]}"); vf_log_line_end();
+      return 1;
+    }
+    if (a >= (uintptr_t)ar->blocks_abandoned && a < (uintptr_t)(ar->blocks_abandoned + ar->field_count)) {
+      if (kind != VF_K_AND && kind != VF_K_OR) return 1;       /* (loads of the cursor scan are not logged) */
+      size_t f = (a - (uintptr_t)ar->blocks_abandoned) / sizeof(mi_bitmap_field_t);
+      uintptr_t target = (kind == VF_K_OR ? newv : ~newv);      /* the bits the operation is about */
+      uintptr_t hit = (kind == VF_K_OR ? (target & ~oldv) : (target & oldv));
+      vf_logf("{\"e\":\"astep\",\"t\":%d,\"f\":\"%s\",\"k\":\"%s\",\"w\":\"ab\",\"hit\":[", cur_t, fn, kn[kind]);
+      int first = 1;
+      for (int b = 0; b < 64; b++) if (hit & ((uintptr_t)1 << b)) { vf_logf("%s%d", first ? "" : ",", step_asegid((uintptr_t)ar->start + (f * 64 + (size_t)b) * MI_ARENA_BLOCK_SIZE)); first = 0; }
+      vf_logf("],\"miss\":["); first = 1;
+      for (int b = 0; b < 64; b++) if ((target & ~hit) & ((uintptr_t)1 << b)) { vf_logf("%s%d", first ? "" : ",", step_asegid((uintptr_t)ar->start + (f * 64 + (size_t)b) * MI_ARENA_BLOCK_SIZE)); first = 0; }
+      vf_logf("]}"); vf_log_line_end();
+      return 1;
+    }
+  }
+  uintptr_t sg = a & ~(uintptr_t)MI_SEGMENT_MASK;
+  if (a - sg == offsetof(mi_segment_t, thread_id) && (kind == VF_K_STORE || kind == VF_K_LOAD || kind == VF_K_CASS || kind == VF_K_CASW) && step_seg_ok(sg)) {
+    if (kind == VF_K_LOAD) return 1;
+    mi_segment_t* seg = (mi_segment_t*)sg;
+    vf_logf("{\"e\":\"astep\",\"t\":%d,\"f\":\"%s\",\"k\":\"%s\",\"w\":\"tid\",\"seg\":%d,\"arena\":%s,\"ok\":%s,\"o\":%d,\"n\":%d}", cur_t, fn, kn[kind], step_asegid(sg),
+            seg->memid.memkind == MI_MEM_ARENA ? "true" : "false", ok ? "true" : "false", kind == VF_K_STORE ? -1 : step_tidof(oldv), step_tidof(newv)); vf_log_line_end();
+    return 1;
+  }
+  return 0;
+}
 static void step_log(const char* fn, int kind, const volatile void* addr, uintptr_t oldv, uintptr_t newv, int ok) {
   uintptr_t a = (uintptr_t)addr;
   const char* w = NULL; int id = 0; mi_page_t* page = NULL;
+  if (astep_log(fn, kind, addr, oldv, newv, ok)) return;
+  if (kind > VF_K_CASS) return;
   for (int i = 0; i < step_nheaps && w == NULL; i++) if (a == step_heaps[i] + offsetof(mi_heap_t, thread_delayed_free)) { w = "dh"; id = i + 1; }
   if (w == NULL) {
     uintptr_t sg = a & ~(uintptr_t)MI_SEGMENT_MASK; size_t off = a - sg;
@@ -162,7 +229,7 @@ static void step_log(const char* fn, int kind, const volatile void* addr, uintpt
   nsteps++;
 }
 static void vf_trace_step(const char* fn, int kind, const volatile void* addr, uintptr_t oldv, uintptr_t newv, int ok) {
-  if (steps_on && kind >= VF_K_LOAD && kind <= VF_K_CASS) { vf_in_hook = 1; int saved = vf_in_call; vf_in_call = 0; step_log(fn, kind, addr, oldv, newv, ok); vf_in_call = saved; vf_in_hook = 0; }
+  if (steps_on && kind >= VF_K_LOAD && kind <= VF_K_OR) { vf_in_hook = 1; int saved = vf_in_call; vf_in_call = 0; step_log(fn, kind, addr, oldv, newv, ok); vf_in_call = saved; vf_in_hook = 0; }
   if (snap_heap < 0 || kind == VF_K_LOAD) return;
   if ((vf_srand() % (uint64_t)snap_rate) != 0) return;
   vf_in_hook = 1; int saved = vf_in_call; vf_in_call = 0;
